@@ -351,5 +351,23 @@ func writeCalls(ff *core.FuncFacts, fv ssa.Value) []ssa.Instruction {
 		}
 	}
 	walk(fv)
+	// the function value carried through a struct field or a by-value copy: any dynamic call
+	// in the function whose callee forwards to it
+	have := map[ssa.Instruction]bool{}
+	for _, o := range out {
+		have[o] = true
+	}
+	for _, c := range core.Calls(ff.Fn) {
+		cc := c.Common()
+		if cc.IsInvoke() || cc.StaticCallee() != nil || have[c] {
+			continue
+		}
+		if _, isB := cc.Value.(*ssa.Builtin); isB {
+			continue
+		}
+		if ff.Fwd(cc.Value) == fv {
+			out = append(out, c)
+		}
+	}
 	return out
 }
